@@ -443,6 +443,10 @@ def run_partB(case):
 
 
 def evaluate(case):
+    pol = sim.fault_table_isolation_probe()
+    if pol is not None:
+        # "with the default fault handlers": a fault handler object nobody configured must carry the documented defaults
+        return Result([verdict("default-fault-handlers", "C04/fault-handler-table-shared-between-instances", pol)], True, ["table-shared"], {})
     if case.get("part") == "B":
         return run_partB(case)
     return run_partA(case)
@@ -490,6 +494,12 @@ def exhaustive_cases(shard, nshards, tier):
                             if proc == "NAK":
                                 case["missing"] = [1, 2] if j < N else [1]
                             yield case
+                            if proc == "NAK" and style == "plain" and not tie:
+                                # several disjoint gaps and a packet length that fits one segment request per NAK PDU: every
+                                # NAK sequence consists of several PDUs (one expiry is still one expiry)
+                                cfgs = dict(cfg, max_pkt=models.nak_len(2, 2, False, 1))
+                                tl3 = [(["fd", 2] if o == ["fd", 1] else o) for o in tl]
+                                yield {"part": "A", "proc": proc, "cfg": cfgs, "size": 6 * SEG, "timeline": tl3, "missing": [0, 2, 4]}
                             if proc == "NAK":
                                 # same silence point, but the progress is the lost Metadata PDU arriving
                                 tl2 = [(["md"] if o == ["fd", 1] else (["tickmd", 0] if o == ["tickfd", 1, 0] else o)) for o in tl]
@@ -525,6 +535,8 @@ def sampled_case(draw):
     cfg["crc_type"] = draw(st.sampled_from(["CRC_32", "NULL_CHECKSUM", "MODULAR"]))
     nseg = draw(st.integers(2, 6))
     case = {"part": "A", "proc": proc, "cfg": cfg, "size": nseg * SEG - draw(st.integers(0, SEG - 1)), "closure": draw(st.booleans())}
+    if proc == "NAK" and draw(st.integers(0, 2)) == 0:
+        cfg["max_pkt"] = models.nak_len(2, 2, False, draw(st.integers(1, 2)))
     if proc == "NAK":
         case["missing"] = sorted(draw(st.lists(st.integers(0, nseg - 1), min_size=1, max_size=nseg, unique=True)))
         if draw(st.integers(0, 2)) == 0:
